@@ -11,6 +11,8 @@ import Golib.Proof.C10Large
 import Golib.Proof.C10History
 import Golib.Proof.C10Copy
 import Golib.Proof.C10C01
+import Golib.Proof.C10Trans
+import Golib.Proof.C10SyncArith
 import Golib.Gen.FactsC10
 
 namespace Golib.C10
@@ -537,5 +539,41 @@ example :
       = some ["true", "true", "true", "true", "false", "4", "1 true", "2 true", "false"] ∧
     (mkSync 4 0 []).warp (2 ^ 32 - 2) = mkSync 4 (2 ^ 32 - 2) [] := by
   constructor <;> decide +kernel
+
+/-! ### Regenerated tie (wave 8): `ringz/sync.go: roundupPowOfTwo` translated by `go2lean`
+
+`Golib.Gen.Trans.C10.roundupPowOfTwo` is regenerated from the tree under verification on every
+run (`Golib/Gen/TransC10.lean`); these theorems are re-checked against what the code says now. -/
+
+/-- TIE: the translated `roundupPowOfTwo` equals the hand-written model `roundupPowOfTwo` (the
+definition `syncCap`/`SyncRing.init?` and all capacity theorems above are about) on EVERY
+`uint32`; in particular it neither panics (`1 << pos` with `pos ≥ 0`) nor runs out of fuel. -/
+theorem c10_trans_roundupPowOfTwo (x : BitVec 32) :
+    Golib.Gen.Trans.C10.roundupPowOfTwo x
+      = .ok (BitVec.ofNat 32 (Golib.C10.roundupPowOfTwo x.toNat)) :=
+  trans_roundupPowOfTwo_eq x
+
+/-- The property clause directly on the generated definition: for `2^L ≤ x < 2^(L+1)` with
+`L + 1 ≤ 31` (every `x` with `1 ≤ x < 2^31`) the code returns `2^(L+1)`, the least power of two
+above `x` — which is the least power of two `≥ x` whenever `x` is not itself a power of two, the
+only case in which `Init` calls it. -/
+theorem c10_trans_roundup_next_pow2 (x : BitVec 32) (L : Nat)
+    (h1 : 2 ^ L ≤ x.toNat) (h2 : x.toNat < 2 ^ (L + 1)) (hL : L + 1 ≤ 31) :
+    Golib.Gen.Trans.C10.roundupPowOfTwo x = .ok (BitVec.ofNat 32 (2 ^ (L + 1))) ∧
+    x.toNat < 2 ^ (L + 1) ∧ 2 ^ (L + 1) ≤ 2 * x.toNat := by
+  refine ⟨?_, h2, by rw [Nat.pow_succ]; omega⟩
+  rw [c10_trans_roundupPowOfTwo]
+  have hbl : bitLenLoop x.toNat 0 = L + 1 := by rw [bitLenLoop_spec L x.toNat 0 h1 h2]; omega
+  have : 2 ^ (L + 1) ≤ 2 ^ 31 := Nat.pow_le_pow_right (by decide) hL
+  simp only [Golib.C10.roundupPowOfTwo, hbl, Nat.shiftLeft_eq, Nat.one_mul, two32]
+  congr 2
+  apply Nat.mod_eq_of_lt
+  omega
+
+/-- Non-vacuity: 1000 rounds up to 1024, and 2^31 + 1 wraps to 0 (why `Init` must reject it). -/
+example : Golib.Gen.Trans.C10.roundupPowOfTwo 1000#32 = .ok 1024#32 ∧
+    Golib.Gen.Trans.C10.roundupPowOfTwo 2147483649#32 = .ok 0#32 := by
+  constructor <;> decide +kernel
+
 
 end Golib.C10
